@@ -106,4 +106,257 @@ theorem Bvf.bitopAssign_refines (op : BitOp) (s : Raw w) (x : AnyBv) (hw : 0 < w
   rw [BitOp.spec_eq_match] at key
   exact ⟨key.1, key.2, hsz⟩
 
+-- ---- word-wise in-place loops ---------------------------------------------------------------------------
+theorem wd_setIfInBounds (ws : Array (BitVec w)) (i j : Nat) (v : BitVec w) :
+    wd (ws.setIfInBounds i v) j = if i = j ∧ i < ws.size then v else wd ws j := by
+  unfold wd
+  simp only [Array.getD_eq_getD_getElem?, Array.getElem?_setIfInBounds]
+  by_cases h1 : i = j
+  · subst h1
+    by_cases h2 : i < ws.size
+    · simp [h2]
+    · simp [h2]
+  · simp [h1]
+
+theorem foldl_setWords (g : Nat → BitVec w → BitVec w) (a : Nat) (ws : Array (BitVec w)) (k : Nat) :
+    ((List.range' a k).foldl (fun arr i => arr.setIfInBounds i (g i (wd arr i))) ws).size = ws.size ∧
+    ∀ j, wd ((List.range' a k).foldl (fun arr i => arr.setIfInBounds i (g i (wd arr i))) ws) j =
+      if a ≤ j ∧ j < a + k ∧ j < ws.size then g j (wd ws j) else wd ws j := by
+  induction k with
+  | zero =>
+    refine ⟨by simp, fun j => ?_⟩
+    have : ¬ (a ≤ j ∧ j < a + 0 ∧ j < ws.size) := by omega
+    rw [if_neg this]; rfl
+  | succ k ih =>
+    obtain ⟨ih1, ih2⟩ := ih
+    rw [List.range'_1_concat, List.foldl_append]
+    simp only [List.foldl_cons, List.foldl_nil]
+    refine ⟨by rw [Array.size_setIfInBounds, ih1], fun j => ?_⟩
+    rw [wd_setIfInBounds, ih1, ih2, ih2]
+    by_cases h1 : a + k = j
+    · subst h1
+      by_cases h2 : a + k < ws.size
+      · have e1 : ¬ (a ≤ a + k ∧ a + k < a + k ∧ a + k < ws.size) := by omega
+        have e2 : (a ≤ a + k ∧ a + k < a + (k + 1) ∧ a + k < ws.size) := by omega
+        rw [if_neg e1, if_pos e2]; simp [h2]
+      · have e1 : ¬ (a ≤ a + k ∧ a + k < a + k ∧ a + k < ws.size) := by omega
+        have e2 : ¬ (a ≤ a + k ∧ a + k < a + (k + 1) ∧ a + k < ws.size) := by omega
+        rw [if_neg e1, if_neg e2]; simp [h2]
+    · have e : (a ≤ j ∧ j < a + (k + 1) ∧ j < ws.size) ↔ (a ≤ j ∧ j < a + k ∧ j < ws.size) := by omega
+      simp [h1, e]
+
+/-- `for i in a..b { ws[i] = g(i, ws[i]) }` -/
+theorem forRange_setWords (g : Nat → BitVec w → BitVec w) (a b : Nat) (ws : Array (BitVec w)) :
+    (forRange a b (fun i arr => arr.setIfInBounds i (g i (wd arr i))) ws).size = ws.size ∧
+    ∀ j, wd (forRange a b (fun i arr => arr.setIfInBounds i (g i (wd arr i))) ws) j =
+      if a ≤ j ∧ j < b ∧ j < ws.size then g j (wd ws j) else wd ws j := by
+  unfold forRange
+  obtain ⟨h1, h2⟩ := foldl_setWords g a ws (b - a)
+  refine ⟨h1, fun j => ?_⟩
+  rw [h2]
+  have e : (a ≤ j ∧ j < a + (b - a) ∧ j < ws.size) ↔ (a ≤ j ∧ j < b ∧ j < ws.size) := by omega
+  simp [e]
+
+-- ---- 2. `Bvd (op)= rhs` --------------------------------------------------------------------------------
+/-- the two word loops of `Bvd::bitop_assign` -/
+def Bvd.bitopWords (op : BitOp) (data : Array (BitVec 64)) (used nr : Nat) (fetch : Nat → BitVec 64) :
+    Array (BitVec 64) :=
+  forRange (min nr used) used (fun i a => a.setIfInBounds i (op.ap (wd a i) 0#64))
+    (forRange 0 (min used nr) (fun i a => a.setIfInBounds i (op.ap (wd a i) (fetch i))) data)
+
+theorem Bvd.bitopAssign_eq (op : BitOp) (s : Raw 64) (x : AnyBv) :
+    Bvd.bitopAssign op s x =
+      { s with data := maskAt (Bvd.bitopWords op s.data (Bvd.capW s.length) (Bvd.rhsWords x).1
+          (Bvd.rhsWords x).2) s.length } := by
+  unfold Bvd.bitopAssign Bvd.bitopWords
+  rfl
+
+theorem Bvd.bitopWords_spec (op : BitOp) (data : Array (BitVec 64)) (used nr : Nat)
+    (fetch : Nat → BitVec 64) :
+    (Bvd.bitopWords op data used nr fetch).size = data.size ∧
+    ∀ j, wd (Bvd.bitopWords op data used nr fetch) j =
+      if j < used ∧ j < data.size then op.ap (wd data j) (if j < nr then fetch j else 0#64)
+      else wd data j := by
+  unfold Bvd.bitopWords
+  obtain ⟨a1, a2⟩ := forRange_setWords (fun i x => op.ap x (fetch i)) 0 (min used nr) data
+  obtain ⟨b1, b2⟩ := forRange_setWords (fun i x => op.ap x 0#64) (min nr used) used
+    (forRange 0 (min used nr) (fun i a => a.setIfInBounds i (op.ap (wd a i) (fetch i))) data)
+  refine ⟨by rw [b1, a1], fun j => ?_⟩
+  rw [b2, a1, a2]
+  by_cases h1 : j < used ∧ j < data.size
+  · rw [if_pos h1]
+    by_cases h2 : j < nr
+    · have e1 : ¬ (min nr used ≤ j ∧ j < used ∧ j < data.size) := by omega
+      have e2 : (0 ≤ j ∧ j < min used nr ∧ j < data.size) := by omega
+      rw [if_neg e1, if_pos e2, if_pos h2]
+    · have e1 : (min nr used ≤ j ∧ j < used ∧ j < data.size) := by omega
+      have e2 : ¬ (0 ≤ j ∧ j < min used nr ∧ j < data.size) := by omega
+      rw [if_pos e1, if_neg e2, if_neg h2]
+  · have e1 : ¬ (min nr used ≤ j ∧ j < used ∧ j < data.size) := by omega
+    have e2 : ¬ (0 ≤ j ∧ j < min used nr ∧ j < data.size) := by omega
+    rw [if_neg h1, if_neg e1, if_neg e2]
+
+theorem bitAt64 (ws : Array (BitVec 64)) (i : Nat) : bitAt ws i = (wd ws (i / 64)).getLsbD (i % 64) := rfl
+
+theorem Bvd.bitAt_bitopAssign (op : BitOp) (s : Raw 64) (x : AnyBv) (h : s.Inv)
+    (hf : ∀ i j, j < 64 →
+      (if i < (Bvd.rhsWords x).1 then ((Bvd.rhsWords x).2 i).getLsbD j else false) = x.abs.bit (i * 64 + j))
+    (i : Nat) :
+    bitAt (Bvd.bitopAssign op s x).data i =
+      (decide (i < s.length) && op.apb (bitAt s.data i) (x.abs.bit i)) := by
+  rw [Bvd.bitopAssign_eq]
+  simp only
+  obtain ⟨_, hwd⟩ := Bvd.bitopWords_spec op s.data (Bvd.capW s.length) (Bvd.rhsWords x).1 (Bvd.rhsWords x).2
+  have hcap := h.1
+  rw [bitAt_maskAt _ _ _ (by decide)]
+  · by_cases hi : i < s.length
+    · have e : i / 64 < Bvd.capW s.length ∧ i / 64 < s.data.size := by
+        unfold Bvd.capW capFromBitLen; omega
+      rw [bitAt64, hwd, if_pos e, BitOp.getLsbD_ap]
+      have := hf (i / 64) (i % 64) (Nat.mod_lt _ (by decide))
+      rw [div_mul_add_mod] at this
+      rw [← this, ← bitAt64]
+      by_cases hn : i / 64 < (Bvd.rhsWords x).1 <;> simp [hn, hi]
+    · simp [hi]
+  · intro j hj
+    have e : ¬ (j / 64 < Bvd.capW s.length ∧ j / 64 < s.data.size) := by
+      unfold Bvd.capW capFromBitLen; omega
+    rw [bitAt64, hwd, if_neg e, ← bitAt64]
+    exact h.2 j (by omega)
+
+theorem Bvd.bitopAssign_refines (op : BitOp) (s : Raw 64) (x : AnyBv) (h : s.Inv)
+    (hf : ∀ i j, j < 64 →
+      (if i < (Bvd.rhsWords x).1 then ((Bvd.rhsWords x).2 i).getLsbD j else false) = x.abs.bit (i * 64 + j)) :
+    (Bvd.bitopAssign op s x).Inv ∧
+    (Bvd.bitopAssign op s x).abs =
+      (match op with | .and => s.abs.and x.abs | .or => s.abs.or x.abs | .xor => s.abs.xor x.abs) ∧
+    (Bvd.bitopAssign op s x).data.size = s.data.size := by
+  have hw : 0 < 64 := by decide
+  have hsz : (Bvd.bitopAssign op s x).data.size = s.data.size := by
+    rw [Bvd.bitopAssign_eq]
+    simp only
+    rw [size_maskAt, (Bvd.bitopWords_spec _ _ _ _ _).1]
+  have hlen : (Bvd.bitopAssign op s x).length = s.length := by
+    rw [Bvd.bitopAssign_eq]
+  have hsb : ∀ j, s.abs.len ≤ j → s.abs.bit j = false := fun j hj => by
+    rw [Raw.abs_bit _ _ hw]; exact h.2 j hj
+  have key := refines_of_bits (Bvd.bitopAssign op s x) (op.spec s.abs x.abs) hw
+    (by rw [BitOp.spec_len, hlen]; rfl)
+    (by rw [hsz, hlen]; exact h.1)
+    (fun i hi => by
+      rw [BitOp.spec_len] at hi
+      rw [BitOp.spec_bit _ _ _ _ hsb]
+      have : ¬ i < s.abs.len := by omega
+      simp [this])
+    (fun i => by
+      rw [Bvd.bitAt_bitopAssign op s x h hf, BitOp.spec_bit _ _ _ _ hsb, Raw.abs_bit _ _ hw]; rfl)
+  rw [BitOp.spec_eq_match] at key
+  exact ⟨key.1, key.2, hsz⟩
+
+-- ---- 3. `!` ---------------------------------------------------------------------------------------------
+theorem testBit_two_pow_sub_one_sub (n v i : Nat) (hv : v < 2 ^ n) :
+    (2 ^ n - 1 - v).testBit i = (decide (i < n) && !v.testBit i) := by
+  have e : 2 ^ n - 1 - v = 2 ^ n - (v + 1) := by omega
+  rw [e, Nat.testBit_two_pow_sub_succ hv]
+
+theorem BV.not_bit (a : BV) (ha : a.WF) (i : Nat) :
+    a.not.bit i = (decide (i < a.len) && !a.bit i) := by
+  unfold BV.not BV.bit
+  exact testBit_two_pow_sub_one_sub _ _ _ ha
+
+/-- common end of the three `not` proofs -/
+theorem not_refines_of_bits (s t : Raw w) (hw : 0 < w) (h : s.Inv)
+    (hl : t.length = s.length) (hcap : t.length ≤ t.data.size * w)
+    (hb : ∀ i, bitAt t.data i = (decide (i < s.length) && !bitAt s.data i)) :
+    t.Inv ∧ t.abs = s.abs.not := by
+  apply refines_of_bits t s.abs.not hw hl hcap
+  · intro i hi
+    rw [BV.not_bit _ (h.wf hw)]
+    have : ¬ i < s.abs.len := fun hh => by have : s.abs.not.len = s.abs.len := rfl; omega
+    simp [this]
+  · intro i
+    rw [hb, BV.not_bit _ (h.wf hw), Raw.abs_bit _ _ hw]; rfl
+
+theorem bitAt_map (ws : Array (BitVec w)) (f : BitVec w → BitVec w) (i : Nat) :
+    bitAt (ws.map f) i = (decide (i / w < ws.size) && (f (wd ws (i / w))).getLsbD (i % w)) := by
+  unfold bitAt wd
+  by_cases h : i / w < ws.size
+  · simp [Array.getD_eq_getD_getElem?, h]
+  · simp [Array.getD_eq_getD_getElem?, h]
+
+theorem Bvf.not_refines (s : Raw w) (hw : 0 < w) (h : s.Inv) :
+    (Bvf.not s).Inv ∧ (Bvf.not s).abs = s.abs.not ∧ (Bvf.not s).data.size = s.data.size := by
+  have hsz : (Bvf.not s).data.size = s.data.size := by simp [Bvf.not, size_mod2n]
+  have key := not_refines_of_bits s (Bvf.not s) hw h rfl (by rw [hsz]; exact h.1) (fun i => by
+    unfold Bvf.not
+    simp only
+    rw [bitAt_mod2n _ _ _ hw, bitAt_map, BitVec.getLsbD_not]
+    by_cases hi : i < s.length
+    · have := div_lt_size_of_lt_length h hw hi
+      simp [hi, this, bitAt, Nat.mod_lt i hw]
+    · simp [hi])
+  exact ⟨key.1, key.2, hsz⟩
+
+theorem Bvd.not_refines (s : Raw 64) (h : s.Inv) :
+    (Bvd.not s).Inv ∧ (Bvd.not s).abs = s.abs.not ∧ (Bvd.not s).data.size = s.data.size := by
+  have hw : 0 < 64 := by decide
+  obtain ⟨hs, hwd⟩ := forRange_setWords (fun _ x => ~~~ x) 0 (Bvd.capW s.length) s.data
+  have hsz : (Bvd.not s).data.size = s.data.size := by
+    unfold Bvd.not
+    simp only
+    rw [size_maskAt]; exact hs
+  have hcap := h.1
+  have key := not_refines_of_bits s (Bvd.not s) hw h rfl (by rw [hsz]; exact h.1) (fun i => by
+    unfold Bvd.not
+    simp only
+    rw [bitAt_maskAt _ _ _ hw]
+    · by_cases hi : i < s.length
+      · have e : 0 ≤ i / 64 ∧ i / 64 < Bvd.capW s.length ∧ i / 64 < s.data.size := by
+          unfold Bvd.capW capFromBitLen; omega
+        rw [bitAt64, hwd, if_pos e, BitVec.getLsbD_not, ← bitAt64]
+        simp [hi, Nat.mod_lt i hw]
+      · simp [hi]
+    · intro j hj
+      have e : ¬ (0 ≤ j / 64 ∧ j / 64 < Bvd.capW s.length ∧ j / 64 < s.data.size) := by
+        unfold Bvd.capW capFromBitLen; omega
+      rw [bitAt64, hwd, if_neg e, ← bitAt64]
+      exact h.2 j (by omega))
+  exact ⟨key.1, key.2, hsz⟩
+
+theorem wd_ofFn (n : Nat) (f : Nat → BitVec w) (j : Nat) :
+    wd (Array.ofFn (n := n) fun i => f i.val) j = if j < n then f j else 0#w := by
+  unfold wd
+  by_cases h : j < n
+  · simp [Array.getD_eq_getD_getElem?, h]
+  · simp [Array.getD_eq_getD_getElem?, h]
+
+/-- `!&Bvd` allocates exactly the used words -/
+theorem Bvd.notRef_refines (s : Raw 64) (h : s.Inv) :
+    (Bvd.notRef s).Inv ∧ (Bvd.notRef s).abs = s.abs.not ∧
+    (Bvd.notRef s).data.size = Bvd.capW s.length := by
+  have hw : 0 < 64 := by decide
+  have hcap := h.1
+  have hsz : (Bvd.notRef s).data.size = Bvd.capW s.length := by
+    unfold Bvd.notRef
+    simp only
+    rw [size_maskAt, Array.size_ofFn]
+    unfold Bvd.capW capFromBitLen; omega
+  have key := not_refines_of_bits s (Bvd.notRef s) hw h rfl
+    (by rw [hsz]; show s.length ≤ _; unfold Bvd.capW capFromBitLen; omega) (fun i => by
+    unfold Bvd.notRef
+    simp only
+    rw [bitAt_maskAt _ _ _ hw]
+    · by_cases hi : i < s.length
+      · have e : i / 64 < min (Bvd.capW s.length) s.data.size := by
+          unfold Bvd.capW capFromBitLen; omega
+        rw [bitAt64, wd_ofFn _ (fun k => ~~~ wd s.data k), if_pos e, BitVec.getLsbD_not, ← bitAt64]
+        simp [hi, Nat.mod_lt i hw]
+      · simp [hi]
+    · intro j hj
+      have e : ¬ (j / 64 < min (Bvd.capW s.length) s.data.size) := by
+        unfold Bvd.capW capFromBitLen; omega
+      rw [bitAt64, wd_ofFn _ (fun k => ~~~ wd s.data k), if_neg e]
+      simp)
+  exact ⟨key.1, key.2, hsz⟩
+
 end Bva
